@@ -1,11 +1,16 @@
-(* Correspondence for C06: tags key, bucket, Split. *)
+(* Correspondence for C06: tags key, bucket, Split, and DispatchMetricMap (which worker's
+   aggregator received which shard of which batch). *)
 From stdpp Require Import gmap.
 From GS Require Export Corr.MMLib.
+From GS Require Import Proofs.MetricMapSplit.
 
 Inductive c06case :=
 | KeyCase (src : str) (tags : list str) (obs_key : str)
 | BucketCase (name key : str) (n : N) (obs : N)
-| SplitCase (dps : list datapoint) (n : nat) (obs_whole : list entry) (obs_shards : list (list entry)).
+| SplitCase (dps : list datapoint) (n : nat) (obs_whole : list entry) (obs_shards : list (list entry))
+(* batches dispatched one after the other to n workers; obs = per worker, the dumps of the maps
+   its aggregator received, in order *)
+| DispatchCase (batches : list (list datapoint)) (n : nat) (obs : list (list (list entry))).
 
 Fixpoint all2 {A B} (f : A -> B -> bool) (a : list A) (b : list B) : bool :=
   match a, b with
@@ -14,20 +19,47 @@ Fixpoint all2 {A B} (f : A -> B -> bool) (a : list A) (b : list B) : bool :=
   | _, _ => false
   end.
 
+(* [split] is evaluated through [split_fast], which is equal to it (one adler32 per series
+   instead of one per series and shard) *)
+Definition split_c (n : nat) (m : mmap) : list mmap := split_fast n m.
+Lemma split_c_is_split n m : split_c n m = split n m.
+Proof. apply split_fast_eq. Qed.
+
+Definition is_nil {A} (l : list A) : bool := match l with [] => true | _ => false end.
+
+(* what worker i is expected to receive: shard i of every batch, empty shards skipped;
+   [sps] = the Split of every batch (computed once) *)
+Definition worker_feed (i : nat) (sps : list (list mmap)) : list mmap :=
+  List.filter (λ s, negb (is_nil (entries s)))
+    (flat_map (λ sp, match sp !! i with Some s => [s] | None => [] end) sps).
+
+Definition batch_splits (batches : list (list datapoint)) (n : nat) : list (list mmap) :=
+  map (λ b, split_c n (receive_all empty_map b)) batches.
+
+Definition check_dispatch (batches : list (list datapoint)) (n : nat) (obs : list (list (list entry))) : bool :=
+  let sps := batch_splits batches n in
+  (length obs =? n)%nat &&
+  all2 (λ i o, all2 dump_matches (List.filter (λ es, negb (is_nil es)) o) (worker_feed i sps)) (seq 0 n) obs.
+
 Definition check_case (c : c06case) : bool :=
   match c with
   | KeyCase src tags k => str_eqb (tags_key src tags) k
   | BucketCase name key n o => N.eqb (bucket name key n) o
   | SplitCase dps n whole shards =>
       let m := receive_all empty_map dps in
-      dump_matches whole m && all2 dump_matches shards (split n m)
+      dump_matches whole m && all2 dump_matches shards (split_c n m)
+  | DispatchCase batches n obs => check_dispatch batches n obs
   end.
 
 Inductive c06explain :=
-| XKey (k : str) | XBucket (b : N) | XSplit (whole : list entry) (shards : list (list entry)).
+| XKey (k : str) | XBucket (b : N) | XSplit (whole : list entry) (shards : list (list entry))
+| XDispatch (feeds : list (list (list entry))).
 Definition explain_case (c : c06case) : c06explain :=
   match c with
   | KeyCase src tags _ => XKey (tags_key src tags)
   | BucketCase name key n _ => XBucket (bucket name key n)
-  | SplitCase dps n _ _ => let m := receive_all empty_map dps in XSplit (entries m) (map entries (split n m))
+  | SplitCase dps n _ _ => let m := receive_all empty_map dps in XSplit (entries m) (map entries (split_c n m))
+  | DispatchCase batches n _ =>
+      let sps := batch_splits batches n in
+      XDispatch (map (λ i, map entries (worker_feed i sps)) (seq 0 n))
   end.
